@@ -118,7 +118,18 @@ func pullsOn(fn *ssa.Function, field string, method string) []*ssa.Call {
 	var out []*ssa.Call
 	instrs(fn, func(b *ssa.BasicBlock, i int, in ssa.Instruction) {
 		call, ok := in.(*ssa.Call)
-		if !ok || !call.Call.IsInvoke() || call.Call.Method.Name() != method {
+		if !ok {
+			return
+		}
+		if !call.Call.IsInvoke() {
+			// the field kept under its concrete type (inner *peekable[T]): the same pull as a static method call
+			if cal := staticCallee(&call.Call); field != "" && cal != nil && cal.Signature.Recv() != nil && cal.Name() == method && len(call.Call.Args) > 0 &&
+				strings.HasSuffix(path(call.Call.Args[0]), "."+field) {
+				out = append(out, call)
+			}
+			return
+		}
+		if call.Call.Method.Name() != method {
 			return
 		}
 		if field == "" || strings.HasSuffix(path(call.Call.Value), "."+field) {
